@@ -73,6 +73,7 @@ def connEvent (n : Nat) (s : State) (ev : String) : Option State :=
   else if let some r := dropPrefix ev "sub" then r.toNat?.bind fun i => app [.start i, .check i, .write i]
   else if let some r := dropPrefix ev "wret" then r.toNat?.bind fun i => app [.writeRet i]
   else if let some r := dropPrefix ev "ans" then r.toNat?.bind fun i => app [.peerAnswer i]
+  else if let some r := dropPrefix ev "nak" then r.toNat?.bind fun i => app [.peerAnswer i]   -- generic_nack is an answer too
   else if let some r := dropPrefix ev "dl" then r.toNat?.bind fun i => app [.deadline i]
   else if let some r := dropPrefix ev "unsol:" then
     match r.splitOn ":" with
